@@ -173,7 +173,12 @@ def one_case(ctx, seed, idx):
         decoy_before = None
         if r.random() < 0.5:
             dname = r.choice(pairs)[1]['name']
-            if r.random() < 0.5:
+            k_decoy = r.random()
+            if k_decoy < 0.2:
+                # a marker interface: known locally, with no members at all
+                decoy = I.DBusInterface(dname)
+                ctx.count('memberless_local_definitions')
+            elif k_decoy < 0.6:
                 decoy = I.DBusInterface(dname, I.Method('OnlyInDecoy', 'i', 's'))
             else:
                 # a local definition sharing member names with the remote one, but with other signatures
